@@ -198,6 +198,13 @@ impl Generator {
                 if self.rng.chance(85) { return Some(Ev::Get(self.key(), self.rng.below(4) as u8)); }
                 let mut keys: Vec<u64> = (0..self.keys).filter(|_| self.rng.chance(60)).collect();
                 if self.rng.chance(50) { keys.reverse(); }
+                // repeated keys: adjacent and apart (every position of the result belongs to the key at that position)
+                if !keys.is_empty() && self.rng.chance(45) {
+                    let at = self.rng.below(keys.len() as u64) as usize;
+                    let repeated = keys[at];
+                    if self.rng.chance(60) { keys.insert(at, repeated); } else { keys.push(repeated); }
+                    if self.rng.chance(25) { keys.insert(0, repeated); }
+                }
                 return Some(Ev::MGet(keys, self.rng.below(3) as u8));
             }
             bound += p_worker;
